@@ -16,7 +16,9 @@
 (*                the manager's own pairs)                                     *)
 (*  kind "reject": g, p, e  a request the advertised bounds do NOT admit; r =    *)
 (*     for adjust_power TRUE and FALSE: [adj, kind, calls] of the manager run    *)
-(*  kind "bounds": g, hp (probe powers in half units, from TLC), adv / enf     *)
+(*  kind "bounds": g, wk (wk[g][k]: battery k of group g reported working; the  *)
+(*     same set goes to calculate(metrics_data, working_batteries) and to the    *)
+(*     manager's status tracker), hp (probe powers in half units, from TLC), adv / enf *)
 (*     (<<il, el, eu, iu>> of PowerBoundsCalculator.calculate / BatteryManager *)
 (*     ._get_bounds), accA / accN (per probe: _check_request with / without    *)
 (*     adjust_power did not answer OutOfBounds), cont (Power in SystemBounds), *)
@@ -123,7 +125,7 @@ InAdvFP(hp, a) == (a[1] - Tol <= hp * HalfSC /\ hp * HalfSC <= a[2] + Tol)
                   \/ (a[3] - Tol <= hp * HalfSC /\ hp * HalfSC <= a[4] + Tol)
 BndFP(b) == <<b.il * SC, b.el * SC, b.eu * SC, b.iu * SC>>
 BoundsChecks(r) ==
-    LET gs == r.g
+    LET gs == Effective(r.g, r.wk)      \* model side only (DRIFT lines); the clauses use recorded numbers
         A == Advertised(gs)
         E == Enforced(gs)
     IN /\ Check(Near(r.adv[1], r.enf[1]) /\ Near(r.adv[4], r.enf[4]), "C17.InclusionIdentical",
@@ -176,6 +178,8 @@ ExercisedReject(r) ==
         commanded_runs |-> Cardinality({k \in 1..Len(r.r) : cmd(r.r[k])})]
 ExercisedBounds(r) ==
     [probes |-> Len(r.hp),
+     partially_working |-> B2N(PartiallyWorking(r.wk)),
+     group_not_working |-> B2N(Len(Effective(r.g, r.wk)) < Len(r.g)),
      in_advertised |-> Cardinality({k \in 1..Len(r.hp) : InAdvFP(r.hp[k], r.adv)}),
      contains |-> Cardinality({k \in 1..Len(r.hp) : r.cont[k]}),
      rejected |-> Cardinality({k \in 1..Len(r.hp) : ~r.accN[k]}),
